@@ -26,6 +26,17 @@ def subtree_cases(ctx, ntrees):
                     c[name] = {"k": "d", "mode": 0o755, "mtime": 10**18, "c": {
                         "file": {"k": "f", "data": name.encode().hex(), "mode": 0o644, "mtime": 10**18 + 3}}}
         opts = gen.rand_opts(ctx.rng)
+        if t % 2 == 1:
+            # a directory beside siblings whose names extend its name by a character sorting below '/', all with several
+            # entries, stored in index hunks of a few entries: a hunk then holds contents of the directory without the
+            # directory's own entry, followed by the siblings' contents
+            def kids(n):
+                return {"f%d" % j: {"k": "f", "data": "%02x" % j, "mode": 0o644, "mtime": 10**18 + j} for j in range(n)}
+            stem = ctx.rng.choice(["a", "data", "ñ"])
+            c[stem] = {"k": "d", "mode": 0o755, "mtime": 10**18, "c": dict(kids(ctx.rng.choice([3, 4, 6])), b={"k": "d", "mode": 0o755, "mtime": 10**18, "c": kids(2)})}
+            for suf in ctx.rng.sample([".b", "-old", " (1)", "+", ",v", "!"], 3):
+                c[stem + suf] = {"k": "d", "mode": 0o755, "mtime": 10**18, "c": kids(ctx.rng.choice([2, 3, 5]))}
+            opts = dict(opts, meph=ctx.rng.choice([2, 3, 4, 5, 7]))
         paths = [p for p, _ in gen.tree_paths(tree)]
         dirs = [p for p, n in gen.tree_paths(tree) if n["k"] == "d"]
         absent = ["/zz", "/a/zz", "/ñ/nope", "/a.", "/añ/f/x", "/v*", "/{v1,p}", "/d [a]", "/?"]
